@@ -564,7 +564,7 @@ func c03Directed() [][]string {
 }
 
 func runC03(args []string) {
-	f := verifx.ParseFlags("c03", args, 5, 40)
+	f := verifx.ParseFlags("c03", args, 12, 70)
 	out := verifx.NewOut()
 	ctx := context.Background()
 	database.SetVerifPointFunc(c03VerifPoint)
